@@ -213,6 +213,9 @@ class MG(da.Solver):
         # Restrict residual (and parameters in case of heterogeneities)
         r = self.restriction(r)
         if self.heterogeneous:
+            # Keep the parameters of the current level; restriction followed by
+            # prolongation does not reproduce them.
+            level_parameters = (self.mass_coeff, self.diffusion_coeff, self.smoother)
             self.restrict_parameters()
 
         # Solve/smooth coarse problem or further V-cycle
@@ -229,7 +232,7 @@ class MG(da.Solver):
         # Pad correction if necessary (to account for odd number of grid points)
         pad_tuple = tuple((0, x.shape[i] - eps.shape[i]) for i in range(self.dim))
         if self.heterogeneous:
-            self.prolongate_parameters(pad_tuple)
+            self.mass_coeff, self.diffusion_coeff, self.smoother = level_parameters
         eps = np.lib.pad(
             eps,
             pad_tuple,
